@@ -215,6 +215,7 @@ class Crazyflie():
         if (self.link is not None):
             self.link.close()
         self.link = None
+        self._cancel_answer_timers()
         if (self.state == State.INITIALIZED):
             self.connection_failed.call(self.link_uri, errmsg)
         elif (self.state == State.CONNECTED or
@@ -284,7 +285,7 @@ class Crazyflie():
         if (self.link is not None):
             self.link.close()
             self.link = None
-        self._answer_patterns = {}
+        self._cancel_answer_timers()
         self.disconnected.call(self.link_uri)
         self.state = State.DISCONNECTED
 
@@ -308,6 +309,13 @@ class Crazyflie():
     def remove_header_callback(self, cb, port, channel, port_mask=0xFF, channel_mask=0xFF):
         """Remove the callback cb on port and channel"""
         self.incoming.remove_header_callback(cb, port, channel, port_mask, channel_mask)
+
+    def _cancel_answer_timers(self):
+        """Pending requests die with the link they were sent on: stop their
+        retry timers and forget the patterns"""
+        for timer in list(self._answer_patterns.values()):
+            timer.cancel()
+        self._answer_patterns = {}
 
     def _no_answer_do_retry(self, pk, pattern):
         """Resend packets that we have not gotten answers to"""
@@ -375,8 +383,12 @@ class Crazyflie():
                         self._answer_patterns[pattern] = new_timer
                         new_timer.start()
                 else:
+                    # Answered (or the link was closed) in the meantime:
+                    # nothing to retry
                     logger.debug('Resend requested, but no pattern found: %s',
                                  self._answer_patterns)
+                    self._send_lock.release()
+                    return
             self.link.send_packet(pk)
             self.packet_sent.call(pk)
         self._send_lock.release()
